@@ -134,9 +134,12 @@ func runC16(cases []string, out *bufio.Writer, _ []string) {
 					continue
 				}
 				where := "nowhere"
-				polls := 400
-				if live == 'W' && (op == 'g' || op == 'G') { // served by a synchronous logger: what is not there now will not come
-					polls = 1
+				// only an asynchronous logger delivers a little later: h1 is asynchronous in B, h2 in A and W; everything else
+				// (no live configuration, the root handle, synchronous loggers) has delivered when the call returns
+				polls := 1
+				viaH1 := op == 'g' || op == 'G' || op == 'w'
+				if (live == 'B' && viaH1) || ((live == 'A' || live == 'W') && op == 'v') {
+					polls = 400
 				}
 				for k := 0; k < polls && where == "nowhere"; k++ { // an async logger delivers a little later
 					snap := recSnapshot()
